@@ -62,6 +62,9 @@ struct DictionaryHeader {
     entries: Vec<EntryItem>,
 }
 
+/// No word is longer than a chat message, which caps how deep the node tree can be.
+const MAX_WORD_LENGTH: usize = 512;
+
 pub struct Dictionary {
     header: DictionaryHeader,
     pub words: Vec<String>,
@@ -174,8 +177,9 @@ impl Dictionary {
         prev: String,
         depth: usize,
     ) -> Option<()> {
-        // a path through a tree visits every entry at most once, anything deeper is a cycle
-        if depth > self.header.entries.len() {
+        // a path through a tree visits every entry at most once, anything deeper is a cycle; and every level
+        // adds at least one character, so a path is never longer than the longest word a dictionary can hold
+        if depth > self.header.entries.len() || depth > MAX_WORD_LENGTH {
             return None;
         }
 
